@@ -124,11 +124,11 @@ class pointwise_aggregates {
                     for(ptrdiff_t ip = 0; ip < static_cast<ptrdiff_t>(Ap.nrows); ++ip) {
                         ptrdiff_t ia = ip * prm.block_size;
 
-                        for(unsigned k = 0; k < prm.block_size; ++k, ++ia) {
-                            id[ia] = prm.block_size * pw_aggr.id[ip] + k;
+                        for(unsigned k = 0; k < prm.block_size; ++k) {
+                            id[ia + k] = prm.block_size * pw_aggr.id[ip] + k;
 
-                            j[k] = A.ptr[ia];
-                            e[k] = A.ptr[ia+1];
+                            j[k] = A.ptr[ia + k];
+                            e[k] = A.ptr[ia + k + 1];
                         }
 
                         for(ptrdiff_t jp = Ap.ptr[ip], ep = Ap.ptr[ip+1]; jp < ep; ++jp) {
